@@ -31,6 +31,21 @@ class UuidPatch:
         uuid.uuid4 = self.orig
 
 
+def _attached(j):
+    """the attached circuit: built afresh, or — for every third one, chosen by its text — a deep copy or a pickle round
+    trip of it (objects whose gate types are equal to the module's constants without being identical to them)"""
+    import copy as _copy
+    import pickle as _pickle
+    import zlib
+    other = circ_from_json(j)
+    k = zlib.crc32(json.dumps(j, sort_keys=True).encode()) % 6
+    if k == 0:
+        return _copy.deepcopy(other)
+    if k == 1:
+        return _pickle.loads(_pickle.dumps(other))
+    return other
+
+
 def apply_step(c, st):
     from cirbo.core.circuit import gate
     name = st[0]
@@ -67,7 +82,7 @@ def apply_step(c, st):
     elif name == 'copy':
         return pycopy.copy(c)
     elif name == 'connect':
-        other = circ_from_json(st[1])
+        other = _attached(st[1])
         before = circ_to_json(other)
         c.connect_circuit(other, list(st[2]), list(st[3]), right_connect=st[4], name=st[5], add_prefix=st[6])
         if circ_to_json(other) != before:
@@ -75,7 +90,7 @@ def apply_step(c, st):
     elif name == 'wrap':
         # the five wrappers, called as a user calls them: ['wrap', which, other, thisC|None, otherC|None, right, name, addp]
         _, which, oj, thisc, otherc, right, bname, addp = st
-        other = circ_from_json(oj)
+        other = _attached(oj)
         before = circ_to_json(other)
         if which == 'connect_left':
             c.connect_left(other, list(thisc), name=bname, add_prefix=addp)
